@@ -48,11 +48,21 @@ def exc_class(name):
         "PermissionDenied": am.PermissionDenied, "HostKeyNotVerifiable": am.HostKeyNotVerifiable,
         "KeyExchangeFailed": am.KeyExchangeFailed, "ChannelOpenError": am.ChannelOpenError,
     }
+    if name in ASYNCSSH_EXTRA:
+        return getattr(am, name)
     return table[name]
+
+
+# asyncssh's further exception classes for a session lost with a disconnect reason (asyncssh.misc; api docs
+# "Exceptions"): subclasses of DisconnectError, one per SSH disconnect reason code, constructed from (reason)
+ASYNCSSH_DISCONNECTS = ("ProtocolError", "MACError", "CompressionError", "ServiceNotAvailable", "ProtocolNotSupported")
+ASYNCSSH_EXTRA = ASYNCSSH_DISCONNECTS
 
 
 def make_exc(name):
     cls = exc_class(name)
+    if name in ASYNCSSH_DISCONNECTS:
+        return cls("scripted")
     if name == "IncompleteReadError":
         return cls(b"", 1)
     if name == "ChannelException":
@@ -594,7 +604,10 @@ def run_channel_case(case):
     finally:
         _restore_globals(saved)
         loop.close()
-    return {"ops": obs, "lowlevel": [list(x) for x in env.log[-40:]]}
+    res = {"ops": obs, "lowlevel": [list(x) for x in env.log[-40:]]}
+    if case.get("neg"):
+        res["replies"] = [w.hex() for w in env.written[:12]]
+    return res
 
 
 def _attached(t, tr):
@@ -779,6 +792,73 @@ def run_driver_case(case):
     dropped = (wire.dropped if wire is not None else None)
     return {"ops": obs, "dropped": dropped, "delivered": (wire.delivered if wire is not None else t.delivered),
             "stream_len": len(dev.out), "nwrites": (wire.nwrites if wire is not None else t.nwrites)}
+
+
+# ------------------------------------------------------------------------------------------------
+# Telnet option negotiation: the device's opening burst; Driver.open() with in-channel authentication over the fakes
+# ------------------------------------------------------------------------------------------------
+IAC, DONT, DO, WONT, WILL = 255, 254, 253, 252, 251
+NEG_CMDS = {"do_sga": (DO, 3), "do": (DO, 24), "dont": (DONT, 1), "will": (WILL, 1), "wont": (WONT, 31), "will_sga": (WILL, 3),
+            "do_naws": (DO, 31)}
+
+
+def neg_burst(names):
+    """IAC <cmd> <option> for every name: what a Telnet server opens the session with"""
+    return b"".join(bytes((IAC,) + NEG_CMDS[n]) for n in names)
+
+
+def run_dopen_case(case):
+    """the real (Async)GenericDriver with in-channel Telnet authentication (auth_bypass False) over the scripted socket /
+    stream pair: open() = transport.open() (the dial-out replaced by attaching the fakes) + channel_authenticate_telnet;
+    the scenario's recvs start with the device's option burst, its sends say which reply (or later write) fails"""
+    from scrapli.driver import AsyncGenericDriver, GenericDriver
+    tr = case["tr"]
+    stack = stack_of(tr)
+    env = Env(case)
+    saved = _save_globals()
+    d = (GenericDriver if stack == "sync" else AsyncGenericDriver)(
+        host="h", transport=tr, auth_bypass=False, auth_username="admin", auth_password="pw",
+        timeout_ops=case.get("To", 0.4), timeout_transport=case.get("Ti", 0.0), timeout_socket=5, comms_prompt_pattern=r"^r1#$")
+    t = d.transport
+
+    def reset():
+        t._pre_open_closing_log(closing=False)
+        t._eof = False
+        t._raw_buf = t._cooked_buf = t._control_buf = b""
+        t._control_char_sent_counter = 0
+        attach(t, tr, env)
+        t._post_open_closing_log(closing=False)
+    if stack == "sync":
+        t.open = reset
+    else:
+        async def areset():
+            reset()
+        t.open = areset
+    loop = Loop(stack)
+    obs = []
+    try:
+        for op in case["ops"]:
+            k = op["op"]
+            if k == "open":
+                o, el = observe(loop, d.open)
+            elif k == "close":
+                o, el = observe(loop, d.close)
+            elif k == "get_prompt":
+                o, el = observe(loop, d.get_prompt)
+            elif k == "send_command":
+                o, el = observe(loop, d.send_command, op.get("cmd", "show x"))
+            else:
+                raise ValueError(k)
+            o = ["ok"] if o[0] == "ret" else o
+            lost, rlost = bool(env.leof or env.dead), bool(env.leof or env.lerr is not None)
+            a, _ = observe(loop, d.isalive)
+            alive = bool(a[1]) if a[0] == "ret" else a
+            obs.append({"op": k, "out": o, "elapsed": round(el, 3), "alive": alive, "lost": lost, "rlost": rlost,
+                        "lost2": bool(env.leof or env.dead), "attached": _attached(t, tr)})
+    finally:
+        _restore_globals(saved)
+        loop.close()
+    return {"ops": obs, "replies": [w.hex() for w in env.written[:12]], "lowlevel": [list(x) for x in env.log[-40:]]}
 
 
 # ------------------------------------------------------------------------------------------------
@@ -1002,8 +1082,10 @@ class TcpDevice:
     connection in the manner `end`: "fin" (close), "rst" (SO_LINGER 0 + close), "fin_keep" (shutdown
     of its write side only: the client sees EOF while its own writes still succeed)"""
 
-    def __init__(self, end):
+    def __init__(self, end, burst=b"", after=b""):
         self.end = end
+        self.burst, self.after = burst, after      # "neg_fin" / "neg_rst": sent on accept, then the device hangs up
+        self.hungup = threading.Event()
         self.srv = socket.socket()
         self.srv.setsockopt(socket.SOL_SOCKET, socket.SO_REUSEADDR, 1)
         self.srv.bind(("127.0.0.1", 0))
@@ -1029,6 +1111,15 @@ class TcpDevice:
                 if self.end == "rst_at_once":
                     c.setsockopt(socket.SOL_SOCKET, socket.SO_LINGER, struct.pack("ii", 1, 0))
                     c.close()
+                    continue
+                if self.end in ("neg_fin", "neg_rst"):
+                    # the opening option burst (and what follows it), then gone before a single option is answered:
+                    # the client's replies meet a closed connection (the first one draws the RST, the next ones EPIPE)
+                    c.sendall(self.burst + self.after)
+                    if self.end == "neg_rst":
+                        c.setsockopt(socket.SOL_SOCKET, socket.SO_LINGER, struct.pack("ii", 1, 0))
+                    c.close()
+                    self.hungup.set()
                     continue
                 c.sendall(b"r1#")
                 buf = b""
@@ -1083,13 +1174,21 @@ class TcpDevice:
 def run_tcp_case(case):
     from scrapli.driver import AsyncGenericDriver, GenericDriver
     saved = _save_globals()
-    dev = TcpDevice(case["end"])
+    dev = TcpDevice(case["end"], neg_burst(case.get("neg", [])), case.get("after", "").encode())
     stack = "sync" if case["tr"] == "telnet" else "async"
     cls = GenericDriver if stack == "sync" else AsyncGenericDriver
-    d = cls(host="127.0.0.1", port=dev.port, transport=case["tr"], auth_bypass=True, timeout_ops=case.get("To", 1.0),
+    d = cls(host="127.0.0.1", port=dev.port, transport=case["tr"], auth_bypass=not case.get("auth"), auth_username="admin",
+            auth_password="pw", timeout_ops=case.get("To", 1.0),
             timeout_transport=case.get("Ti", 1.0), timeout_socket=2, comms_prompt_pattern=r"^r1#$")
     loop = Loop(stack)
     try:
+        if case.get("preopen") and stack == "sync":
+            # the connection is made first (transport.open()); the device answers it with its burst and hangs up; only
+            # then does the driver's open() run (it finds the socket open): the order of the events on the wire does not
+            # depend on how the two threads are scheduled
+            o, _ = observe(loop, d.transport.open)
+            if o[0] != "ret" or not dev.hungup.wait(10):
+                raise RuntimeError("loopback device: %s" % (o,))
         obs = _runtime_ops(loop, d, case["ops"])
     finally:
         try:
@@ -1131,7 +1230,7 @@ def run_ssh_case(case):
 
 
 # ------------------------------------------------------------------------------------------------
-RUNNERS = {"channel": run_channel_case, "driver": run_driver_case,
+RUNNERS = {"channel": run_channel_case, "driver": run_driver_case, "dopen": run_dopen_case,
            "open": run_open_case, "pty": run_pty_case, "tcp": run_tcp_case, "ssh": run_ssh_case}
 
 
